@@ -401,7 +401,7 @@ def corpus_cases():
 
 def chunks(tier, seed):
     ch = [{"kind": "corpus"}, {"kind": "defaults"}]
-    nrand = {"quick": 1600, "thorough": 40000}.get(tier, 5000)
+    nrand = {"quick": 1600, "thorough": 160000}.get(tier, 5000)
     per = max(1, nrand // 16)
     for i in range(16):
         ch.append({"kind": "random", "seed": seed * 1000 + i, "n": per})
